@@ -297,6 +297,20 @@ def check_pauli_maps(ctx, case):
         if not np.allclose(t, full[rm[j]]):
             probs.append(('remap_pauli_basis_elements', perm, j))
             break
+    # the index maps are pure: whatever the caller does to a returned array, the next call with the same
+    # arguments returns the same map
+    for fn, arg in ((ffb.equivalent_pauli_basis_elements, idx), (ffb.remap_pauli_basis_elements, perm)):
+        first = np.array(fn(arg, N), copy=True)
+        out = fn(arg, N)
+        try:
+            out[...] = out[::-1].copy()
+            out[0] = -1
+        except (ValueError, TypeError):
+            pass                     # (a read-only result is fine)
+        again = np.asarray(fn(arg, N))
+        if again.shape != first.shape or not np.array_equal(again, first):
+            probs.append((fn.__name__ + ' returns another map after the caller modified an earlier result',
+                          list(arg), 0))
     ctx.count(('pm', N, tuple(idx), tuple(perm)))
     if probs:
         ctx.fail('pauli_index_maps', case, probs, 'explicit tensor-product basis', {},
